@@ -21,6 +21,7 @@ EXPLANATION = (
     "return is control-dependent on the all_done flag which every Pending element clears, and the error vector is the in-order "
     "map(take_err) over the elements; (ZERO) zero-length world returns Ready(Err) for array and Vec without polling.")
 EXPLANATION += (' (CTOR) the entry point stores operand K, converted by into_future only, as the child of position K (the aggregate error is positional with respect to the operands).')
+EXPLANATION += (' (VEC, MaybeDone::poll) the slot type of the Vec variant polls its inner future only in the Future state, stores Done(output) before returning Ready, passes Pending on, and answers Ready(()) without polling or panicking when it is polled again in the Done state (the Vec scan polls finished elements again by design).')
 ASSUMPTIONS = [
     "Iterator::{zip,map,collect} preserve order (library model)",
     "C03.GUARD: a child whose slot is Ready is never polled again",
